@@ -6,11 +6,16 @@ package setec
 import (
 	"context"
 	"encoding/json"
+	"errors"
 	"fmt"
 	"os"
 
 	"github.com/tailscale/setec/types/api"
 )
+
+// errNilFileClient is reported by the methods of a nil *FileClient, which is
+// what NewFileClient returns along with its error.
+var errNilFileClient = errors.New("file client is nil")
 
 // FileClient is an implementation of the StoreClient interface that vends
 // secrets from a static collection of data stored locally on disk.
@@ -75,6 +80,9 @@ func NewFileClient(path string) (*FileClient, error) {
 
 // Get implements the corresponding method of StoreClient.
 func (fc *FileClient) Get(_ context.Context, name string) (*api.SecretValue, error) {
+	if fc == nil {
+		return nil, errNilFileClient
+	}
 	if s, ok := fc.db[name]; ok {
 		return s, nil
 	}
@@ -83,6 +91,9 @@ func (fc *FileClient) Get(_ context.Context, name string) (*api.SecretValue, err
 
 // GetIfChanged implements the corresponding method of StoreClient.
 func (fc *FileClient) GetIfChanged(_ context.Context, name string, oldVersion api.SecretVersion) (*api.SecretValue, error) {
+	if fc == nil {
+		return nil, errNilFileClient
+	}
 	s, ok := fc.db[name]
 	if !ok {
 		return nil, api.ErrNotFound
